@@ -521,6 +521,9 @@ for _text_limit in ("maxstring", "maxother"):
                 or isinstance(native, property)
 """),
     ],
+    "mutants/c16_fix_invariant_added_once_reverted": [
+        ("icontract/_decorators.py", "        if not any(existing is self._invariant for existing in invariants):\n", "        if True:\n"),
+    ],
     "mutants/c14_fix_unreadable_class_attribute_reverted": [
         (CHK, """        try:
             value = getattr(cls, name)
